@@ -327,7 +327,86 @@ let run_case (fuel : nat) (line : string) : string =
      | Failure m -> "(driver-error " ^ String.escaped m ^ ")")
   | _ -> "(skip " ^ (if String.length line > 40 then String.sub line 0 40 else line) ^ ")"
 
+(* --norm: `(norm BEFORE AFTER)` -> does the extracted model of simplify.rs (LangSimplify.normalize)
+   map BEFORE to AFTER?  (structural comparison of the two parsed ASTs) *)
+let norm_case (line : string) : string =
+  match X.parse_all line with
+  | [X.List [X.Atom "norm"; before; after]] ->
+    (try
+       let b = program_of before and a = program_of after in
+       if normalize b = a then "(norm ok)"
+       else if b = a then "(norm diff model-changes-real-does-not)"
+       else if normalize b = b then "(norm diff real-changes-model-does-not)"
+       else "(norm diff both-change)"
+     with Failure m -> "(driver-error " ^ String.escaped m ^ ")")
+  | _ -> "(skip " ^ (if String.length line > 40 then String.sub line 0 40 else line) ^ ")"
+
+(* --compile: `(ast PROGRAM ..)` -> the code the mirror LangCompile.compile_program emits, printed
+   like `qv_ast --code` (constants and tuple ids resolved), or (not-in-fragment) *)
+let compile_case (line : string) : string =
+  match X.parse_all line with
+  | [X.List (X.Atom "ast" :: main :: _)] ->
+    (try
+       let p = normalize (program_of main) in
+       (* tables: every integer literal and every tuple-literal shape of the (normalised) program *)
+       let pool = ref [] and shapes = ref [ (None, []); (Some a_Ok, []) ] in
+       let add_z z = if not (List.mem z !pool) then pool := !pool @ [z] in
+       let add_shape sh = if not (List.mem sh !shapes) then shapes := !shapes @ [sh] in
+       let rec term (t : term) = match t with
+         | Literal (LInteger z) -> add_z z
+         | Tuple (name, fs) ->
+           List.iter (function TupleField (_, FChain c) -> chain c | _ -> ()) fs;
+           add_shape ((match name with Named a -> Some a | _ -> None), List.map (fun (TupleField (l, _)) -> l) fs)
+         | _ -> ()
+       and chain (Chain (_, ts)) = List.iter term ts in
+       List.iter (function StmtExpression (Sequence cs) -> List.iter chain cs | _ -> ()) p;
+       match compile_program !pool !shapes p with
+       | None -> "(not-in-fragment)"
+       | Some code ->
+         let nat_int n = let rec go n acc = match n with O -> acc | S m -> go m (acc + 1) in go n 0 in
+         let instr (i : instr) = match i with
+           | IConstant k -> "(const " ^ string_of_z (List.nth !pool (nat_int k)) ^ ")"
+           | ITuple t ->
+             let (nm, ls) = List.nth !shapes (nat_int t) in
+             "(tuple " ^ (match nm with Some a -> name_of a | None -> "-") ^ " (" ^
+             String.concat " " (List.map (function Some a -> name_of a | None -> "-") ls) ^ "))"
+           | IPop -> "(pop)" | IDuplicate -> "(dup)"
+           | IPick n -> "(pick " ^ string_of_int (nat_int n) ^ ")"
+           | IRotate n -> "(rot " ^ string_of_int (nat_int n) ^ ")"
+           | IReset n -> "(reset " ^ string_of_int (nat_int n) ^ ")"
+           | ILoad n -> "(load " ^ string_of_int (nat_int n) ^ ")"
+           | IStore -> "(store)"
+           | IGet n -> "(get " ^ string_of_int (nat_int n) ^ ")"
+           | IJump o -> "(jmp " ^ string_of_z o ^ ")"
+           | IJumpIf o -> "(jmpif " ^ string_of_z o ^ ")"
+           | INot -> "(not)"
+           | _ -> "(other)" in
+         "(code " ^ String.concat " " (List.map instr code) ^ ")"
+     with Failure m -> "(driver-error " ^ String.escaped m ^ ")")
+  | _ -> "(skip)"
+
 let () =
+  if Array.length Sys.argv > 1 && Sys.argv.(1) = "--compile" then begin
+    (try
+       while true do
+         let line = input_line stdin in
+         if String.length line > 0 then begin
+           let ast = match String.index_opt line '\t' with Some i -> String.sub line 0 i | None -> line in
+           print_endline (compile_case ast)
+         end
+       done
+     with End_of_file -> ());
+    exit 0
+  end;
+  if Array.length Sys.argv > 1 && Sys.argv.(1) = "--norm" then begin
+    (try
+       while true do
+         let line = input_line stdin in
+         if String.length line > 0 then print_endline (norm_case line)
+       done
+     with End_of_file -> ());
+    exit 0
+  end;
   let fuel_n = ref 400000 in
   let i = ref 1 in
   while !i < Array.length Sys.argv do
